@@ -22,6 +22,12 @@ Helper lemmas for `Props/C10`.
 * `SnLocalLink`, `sn_resolve_rekey`, `sn_resolve_spine_*`: resolution commutes with re-keying a
   subtree whose links are local.
 * `SanCheck`: decidable form of the hypotheses, for closed examples.
+* `snLinkOK`: the lexical check of the callback on a link (relative target, `filepath.IsLocal` of the
+  target joined to the link's directory); `sn_linkOK_go`: on segments, the target never climbs above
+  the package root (`isLocal.go depth (pathSegs t)`).
+* `sn_resolve_file_blocks`, `sn_link_blocks`: a path (a link) that leads to a regular file cannot serve
+  as a directory.  `sn_resolve_rekey_go`: resolution inside a subtree all of whose links are relative,
+  lexically local and lead to files never leaves the subtree, hence commutes with `renameDir`.
 -/
 namespace Slug
 
@@ -1685,5 +1691,456 @@ theorem sn_resolve_spine_split (fs : FS) : ∀ (P : List Seg) (fuel : Nat) (cur 
           · rw [hassoc]; exact h3) h
       refine ⟨n, by simp only [List.length_cons]; omega, ?_⟩
       rw [hassoc]; exact hr
+
+/-! ## the lexical check on segments -/
+
+theorem sn_go_nil (d : Nat) : isLocal.go d [] = true := by rw [isLocal.go]
+
+theorem sn_go_skip (d : Nat) (e : Seg) (r : List Seg) (h : e = [] ∨ e = dot) :
+    isLocal.go d (e :: r) = isLocal.go d r := by
+  rw [isLocal.go, if_pos h]
+
+theorem sn_go_dotdot (d : Nat) (r : List Seg) :
+    isLocal.go d (dotdot :: r) = (if d = 0 then false else isLocal.go (d - 1) r) := by
+  rw [isLocal.go, if_neg (by simp), if_pos rfl]
+
+theorem sn_go_plain (d : Nat) (e : Seg) (r : List Seg) (h : Plain e) :
+    isLocal.go d (e :: r) = isLocal.go (d + 1) r := by
+  rw [isLocal.go, if_neg (by intro h'; rcases h' with h' | h'; exact h.1 h'; exact h.2.1 h'), if_neg h.2.2]
+
+theorem sn_go_names (xs : List Seg) (h : ∀ x ∈ xs, Plain x) : ∀ d : Nat, isLocal.go d xs = true := by
+  induction xs with
+  | nil => intro d; exact sn_go_nil d
+  | cons x xs ih =>
+    intro d
+    rw [sn_go_plain d x xs (h x (by simp))]
+    exact ih (fun y hy => h y (List.mem_cons_of_mem _ hy)) _
+
+theorem sn_go_filter (xs : List Seg) : ∀ d : Nat,
+    isLocal.go d (xs.filter (fun e => e ≠ [] ∧ e ≠ dot)) = isLocal.go d xs := by
+  induction xs with
+  | nil => intro d; rfl
+  | cons x xs ih =>
+    intro d
+    by_cases hx : x = [] ∨ x = dot
+    · have hf : decide (x ≠ [] ∧ x ≠ dot) = false := by
+        rcases hx with h | h <;> simp [h]
+      rw [List.filter_cons_of_neg (by simp [hf]), sn_go_skip d x xs hx, ih]
+    · have hf : decide (x ≠ [] ∧ x ≠ dot) = true := by
+        simp only [not_or] at hx
+        simp [hx.1, hx.2]
+      rw [List.filter_cons_of_pos (by simp [hf])]
+      simp only [not_or] at hx
+      by_cases hdd : x = dotdot
+      · subst hdd
+        rw [sn_go_dotdot, sn_go_dotdot, ih]
+      · rw [sn_go_plain d x _ ⟨hx.1, hx.2, hdd⟩, sn_go_plain d x _ ⟨hx.1, hx.2, hdd⟩, ih]
+
+theorem sn_go_pathSegs (d : Nat) (t : Str) : isLocal.go d (pathSegs t) = isLocal.go d (splitOn '/' t) := by
+  unfold pathSegs; exact sn_go_filter _ d
+
+/-- a `..` at the bottom of the (relative) cleaning stack stays there -/
+theorem sn_step_bottom (st : List Seg) (s : Seg) (h : st.getLast? = some dotdot) :
+    (step false st s).getLast? = some dotdot := by
+  unfold step
+  split
+  · exact h
+  · split
+    · cases st with
+      | nil => simp at h
+      | cons t r =>
+        simp only
+        split
+        · rw [List.getLast?_cons_cons]; exact h
+        · rename_i ht
+          cases r with
+          | nil => simp at h; exact absurd h ht
+          | cons u r' => rw [List.getLast?_cons_cons] at h; exact h
+    · cases st with
+      | nil => simp at h
+      | cons t r => rw [List.getLast?_cons_cons]; exact h
+
+theorem sn_run_bottom (xs : List Seg) : ∀ st : List Seg, st.getLast? = some dotdot →
+    (run false st xs).getLast? = some dotdot := by
+  induction xs with
+  | nil => intro st h; exact h
+  | cons x xs ih => intro st h; rw [ps_run_cons]; exact ih _ (sn_step_bottom st x h)
+
+/-- if cleaning `xs` on top of the names `st` leaves no `..` at the bottom, `xs` never climbs above
+the bottom of `st` -/
+theorem sn_go_of_run (xs : List Seg) : ∀ st : List Seg, (∀ s ∈ st, Plain s) →
+    (run false st xs).getLast? ≠ some dotdot → isLocal.go st.length xs = true := by
+  induction xs with
+  | nil => intro st _ _; exact sn_go_nil _
+  | cons x xs ih =>
+    intro st hst h
+    rw [ps_run_cons] at h
+    by_cases hx : x = [] ∨ x = dot
+    · rw [ps_step_skip false st x hx] at h
+      rw [sn_go_skip _ x xs hx]; exact ih st hst h
+    · simp only [not_or] at hx
+      by_cases hdd : x = dotdot
+      · subst hdd
+        cases st with
+        | nil =>
+          exfalso; apply h
+          apply sn_run_bottom
+          simp [step]
+        | cons t r =>
+          have ht : t ≠ dotdot := (hst t (by simp)).2.2
+          have : step false (t :: r) dotdot = r := by simp [step, ht]
+          rw [this] at h
+          rw [sn_go_dotdot]
+          simp only [List.length_cons, Nat.add_one_ne_zero, if_false, Nat.add_sub_cancel]
+          exact ih r (fun s hs => hst s (List.mem_cons_of_mem _ hs)) h
+      · have hp : Plain x := ⟨hx.1, hx.2, hdd⟩
+        rw [ps_step_plain false st x hp] at h
+        rw [sn_go_plain _ x xs hp]
+        have := ih (x :: st) (by
+          intro s hs
+          rcases List.mem_cons.mp hs with rfl | hs
+          · exact hp
+          · exact hst s hs) h
+        simpa using this
+
+theorem sn_isLocal_bottom (segs : List Seg) (h : segs.head? = some dotdot) :
+    isLocal (joinWith '/' segs) = false := by
+  cases segs with
+  | nil => simp at h
+  | cons s rest =>
+    simp only [List.head?_cons, Option.some.injEq] at h
+    subst h
+    cases rest with
+    | nil => decide
+    | cons t r =>
+      rw [joinWith_cons_cons]
+      unfold isLocal
+      rw [splitOn_append]
+      have : splitOn '/' dotdot = [dotdot] := by decide
+      rw [this]
+      simp only [List.singleton_append]
+      rw [sn_go_dotdot]
+      simp
+
+theorem sn_joinWith_ne_nil (c : List Seg) (hcn : c ≠ []) (hc : ∀ x ∈ c, NameNS x) : joinWith '/' c ≠ [] := by
+  intro e
+  have := splitOn_joinWith '/' c hcn (fun x hx => (hc x hx).2)
+  rw [e] at this
+  have hc1 : c = [[]] := this.symm
+  exact (hc [] (by rw [hc1]; simp)).1.1 rfl
+
+/-- `filepath.Dir` of the relative path of a name below the package root -/
+theorem sn_pathDir_rel (c : List Seg) (s : Seg) (hc : ∀ x ∈ c, NameNS x) (hs : NameNS s) :
+    pathDir (joinWith '/' (c ++ [s])) = if c = [] then dot else joinWith '/' c := by
+  by_cases hcn : c = []
+  · subst hcn
+    simp only [List.nil_append, if_true]
+    have : joinWith '/' [s] = s := rfl
+    rw [this]
+    unfold pathDir
+    have e : s.reverse = s.reverse ++ [] := by simp
+    rw [e, ps_dropWhile_append_all _ s.reverse [] (by
+      intro ch hch
+      have : ch ≠ '/' := by intro e'; apply hs.2; rw [← e']; exact List.mem_reverse.mp hch
+      simp [this])]
+    decide
+  · rw [if_neg hcn, ps_joinWith_append '/' c [s] hcn (by simp)]
+    have : joinWith '/' [s] = s := rfl
+    rw [this, ps_pathDir_core _ s hs.2]
+    have habs : isAbs (joinWith '/' c ++ ['/']) = false := by
+      have h0 := ps_isAbs_joinWith c hcn hc
+      cases hj : joinWith '/' c with
+      | nil => exact absurd hj (sn_joinWith_ne_nil c hcn hc)
+      | cons a r => rw [hj] at h0; simpa [isAbs] using h0
+    unfold pathClean
+    rw [habs]
+    simp only [Bool.false_eq_true, if_false]
+    have hsp : splitOn '/' (joinWith '/' c ++ ['/']) = c ++ [[]] := by
+      rw [splitOn_append, splitOn_joinWith '/' c hcn (fun x hx => (hc x hx).2)]; rfl
+    have hcl : cleanSegs false (c ++ [[]]) = c := by
+      unfold cleanSegs
+      rw [run_append, ps_run_plain false c [] (fun x hx => (hc x hx).1)]
+      simp [run, step]
+    rw [hsp, hcl, if_neg hcn]
+
+/-- the lexical check of the callback, on segments: from a link `depth` names below the package
+root, the target never climbs above the root -/
+theorem sn_linkOK_go (c : List Seg) (s : Seg) (t : Str) (hc : ∀ x ∈ c, NameNS x) (hs : NameNS s)
+    (hloc : isLocal (pathJoin (pathDir (joinWith '/' (c ++ [s]))) t) = true) :
+    isLocal.go c.length (pathSegs t) = true := by
+  rw [sn_pathDir_rel c s hc hs] at hloc
+  by_cases ht : t = []
+  · subst ht; exact sn_go_nil _
+  · -- the directory of the link, as a string and as segments
+    have hd : ∃ d : Str, (if c = [] then dot else joinWith '/' c) = d ∧ d ≠ [] ∧ isAbs d = false ∧
+        run false [] (splitOn '/' d) = c.reverse := by
+      by_cases hcn : c = []
+      · subst hcn; exact ⟨dot, by simp, by decide, by decide, by decide⟩
+      · refine ⟨joinWith '/' c, by simp [hcn], ?_, ps_isAbs_joinWith c hcn hc, ?_⟩
+        · exact sn_joinWith_ne_nil c hcn hc
+        · rw [splitOn_joinWith '/' c hcn (fun x hx => (hc x hx).2),
+            ps_run_plain false c [] (fun x hx => (hc x hx).1)]
+          simp
+    obtain ⟨d, hde, hdne, hdabs, hdrun⟩ := hd
+    rw [hde] at hloc
+    rw [sn_go_pathSegs]
+    cases hgo : isLocal.go c.length (splitOn '/' t) with
+    | true => rfl
+    | false =>
+      exfalso
+      have hbot : (run false c.reverse (splitOn '/' t)).getLast? = some dotdot := by
+        cases hb : decide ((run false c.reverse (splitOn '/' t)).getLast? = some dotdot) with
+        | true => exact of_decide_eq_true hb
+        | false =>
+          have := sn_go_of_run (splitOn '/' t) c.reverse
+            (fun x hx => (hc x (List.mem_reverse.mp hx)).1) (of_decide_eq_false hb)
+          rw [List.length_reverse, hgo] at this
+          cases this
+      have habs' : isAbs (d ++ '/' :: t) = false := by
+        cases d with
+        | nil => exact absurd rfl hdne
+        | cons a r => simpa [isAbs] using hdabs
+      have hj : pathJoin d t = pathClean (d ++ '/' :: t) := by
+        unfold pathJoin; simp [hdne, ht]
+      have hsegs : cleanSegs false (splitOn '/' (d ++ '/' :: t)) =
+          (run false c.reverse (splitOn '/' t)).reverse := by
+        unfold cleanSegs
+        rw [splitOn_append, run_append, hdrun]
+      have hhead : (cleanSegs false (splitOn '/' (d ++ '/' :: t))).head? = some dotdot := by
+        rw [hsegs, List.head?_reverse]; exact hbot
+      have hne : cleanSegs false (splitOn '/' (d ++ '/' :: t)) ≠ [] := by
+        intro e; rw [e] at hhead; simp at hhead
+      have hcl : pathClean (d ++ '/' :: t) = joinWith '/' (cleanSegs false (splitOn '/' (d ++ '/' :: t))) := by
+        unfold pathClean
+        rw [habs']
+        simp only [Bool.false_eq_true, if_false, hne]
+      rw [hj, hcl, sn_isLocal_bottom _ hhead] at hloc
+      cases hloc
+
+/-! ## resolution inside a subtree whose links are relative, lexically local, and lead to files -/
+
+theorem sn_dir_parent {fs : FS} (hk : KeysPhysical fs) {cur : PPath}
+    (h : ∃ pm mt, fs.lookup cur = some (.dir pm mt)) : ∃ pm mt, fs.lookup cur.dropLast = some (.dir pm mt) := by
+  by_cases hc : cur = []
+  · subst hc; exact h
+  · obtain ⟨pm, mt, hl⟩ := h
+    rw [lookup_ne_nil _ _ hc] at hl
+    exact (hk cur _ hl).2
+
+/-- a path that resolves to a regular file cannot serve as a directory: with anything appended, the
+resolution fails (whatever the fuel) -/
+theorem sn_resolve_file_blocks {fs : FS} (hk : KeysPhysical fs) :
+    ∀ (n : Nat) (cur : PPath) (segs : List Seg) (p : PPath),
+      (∃ pm mt, fs.lookup cur = some (.dir pm mt)) →
+      resolve fs n cur segs true = .ok p → (∃ pm mt c, fs.lookup p = some (.file pm mt c)) →
+      ∀ (m : Nat) (rest : List Seg) (f : Bool) (r : PPath), rest ≠ [] →
+        resolve fs m cur (segs ++ rest) f ≠ .ok r := by
+  intro n
+  induction n with
+  | zero => intro cur segs p _ h; simp [resolve] at h
+  | succ n ih =>
+    intro cur segs p hcur h hfile m rest f r hrest
+    cases m with
+    | zero => simp [resolve]
+    | succ m =>
+      cases segs with
+      | nil =>
+        simp only [resolve] at h
+        cases h
+        obtain ⟨pm, mt, hd⟩ := hcur
+        obtain ⟨pm', mt', c', hf⟩ := hfile
+        rw [hd] at hf; cases hf
+      | cons s rest' =>
+        rw [List.cons_append, resolve]
+        rw [resolve] at h
+        by_cases hs : s = dotdot
+        · rw [if_pos hs] at h ⊢
+          exact ih _ _ _ (sn_dir_parent hk hcur) h hfile m rest f r hrest
+        · rw [if_neg hs] at h ⊢
+          simp only at h ⊢
+          have hne : rest' ++ rest ≠ [] := by
+            intro e; exact hrest (List.append_eq_nil_iff.mp e).2
+          cases hl : fs.lookup (cur ++ [s]) with
+          | none =>
+            rw [hl] at h
+            simp only at h ⊢
+            rw [if_neg hne]; intro e; cases e
+          | some nd =>
+            rw [hl] at h
+            cases nd with
+            | dir pm mt =>
+              simp only at h ⊢
+              exact ih _ _ _ ⟨pm, mt, hl⟩ h hfile m rest f r hrest
+            | file pm mt c =>
+              simp only at h ⊢
+              rw [if_neg hne]; intro e; cases e
+            | special =>
+              simp only at h ⊢
+              rw [if_neg hne]; intro e; cases e
+            | link t =>
+              simp only at h ⊢
+              have hc1 : ¬ (rest' = [] ∧ (!true) = true) := by simp
+              have hc2 : ¬ (rest' ++ rest = [] ∧ (!f) = true) := fun e => hne e.1
+              rw [if_neg hc1] at h
+              rw [if_neg hc2]
+              by_cases ht : t = []
+              · rw [if_pos ht]; intro e; cases e
+              · rw [if_neg ht] at h ⊢
+                rw [← List.append_assoc]
+                refine ih _ _ _ ?_ h hfile m rest f r hrest
+                split
+                · exact ⟨0o755, 0, rfl⟩
+                · exact hcur
+
+/-- a walk inside the subtree at `W` goes the same way in the subtree re-keyed to `F`, when every link
+of the subtree is relative, never climbs above `W` as written (`isLocal.go`), and cannot serve as a
+directory (`hblock`; e.g. because it leads to a regular file) -/
+theorem sn_resolve_rekey_go {fs : FS} {W F : PPath} (hfree : ∀ e ∈ fs, ¬ F <+: e.1)
+    (hloc : ∀ c s t, fs.get (W ++ c ++ [s]) = some (.link t) →
+      isAbs t = false ∧ isLocal.go c.length (pathSegs t) = true)
+    (hblock : ∀ c s t, fs.get (W ++ c ++ [s]) = some (.link t) →
+      ∀ (m : Nat) (rest : List Seg) (f : Bool) (r : PPath), rest ≠ [] →
+        resolve fs m (W ++ c) (pathSegs t ++ rest) f ≠ .ok r) :
+    ∀ (fuel : Nat) (c : PPath) (segs : List Seg) (follow : Bool) (r : PPath),
+      (∀ x ∈ segs, x ≠ [] ∧ x ≠ dot) → isLocal.go c.length segs = true →
+      resolve fs fuel (W ++ c) segs follow = .ok r →
+      ∃ r', r = W ++ r' ∧ resolve (fs.renameDir W F) fuel (F ++ c) segs follow = .ok (F ++ r') := by
+  intro fuel
+  induction fuel with
+  | zero => intro c segs follow r _ _ h; simp [resolve] at h
+  | succ fuel ih =>
+    intro c segs follow r hseg hgo h
+    cases segs with
+    | nil =>
+      simp only [resolve] at h ⊢
+      cases h
+      exact ⟨c, rfl, rfl⟩
+    | cons s rest =>
+      have hrestseg : ∀ x ∈ rest, x ≠ [] ∧ x ≠ dot := fun x hx => hseg x (List.mem_cons_of_mem _ hx)
+      rw [resolve] at h ⊢
+      by_cases hs : s = dotdot
+      · subst hs
+        rw [if_pos rfl] at h ⊢
+        rw [sn_go_dotdot] at hgo
+        have hc0 : c.length ≠ 0 := by
+          intro e; rw [e] at hgo; simp at hgo
+        rw [if_neg hc0] at hgo
+        have hc : c ≠ [] := by
+          intro e; rw [e] at hc0; exact hc0 rfl
+        rw [List.dropLast_append_of_ne_nil hc] at h ⊢
+        exact ih _ _ _ _ hrestseg (by rw [List.length_dropLast]; exact hgo) h
+      · rw [if_neg hs] at h ⊢
+        simp only at h ⊢
+        have hp : Plain s := ⟨(hseg s (by simp)).1, (hseg s (by simp)).2, hs⟩
+        rw [sn_go_plain _ s rest hp] at hgo
+        have hlk : (fs.renameDir W F).lookup (F ++ c ++ [s]) = fs.lookup (W ++ c ++ [s]) := by
+          rw [List.append_assoc, List.append_assoc]
+          exact sn_renameDir_lookup_moved fs W F (c ++ [s]) (by simp) hfree
+        rw [hlk]
+        have hend : ∃ r', W ++ c ++ [s] = W ++ r' ∧ F ++ c ++ [s] = F ++ r' :=
+          ⟨c ++ [s], by simp, by simp⟩
+        cases hl : fs.lookup (W ++ c ++ [s]) with
+        | none =>
+          rw [hl] at h
+          simp only at h ⊢
+          split
+          · rename_i hr
+            rw [if_pos hr] at h; cases h
+            obtain ⟨r', e1, e2⟩ := hend
+            exact ⟨r', e1, by rw [e2]⟩
+          · rename_i hr; rw [if_neg hr] at h; cases h
+        | some n =>
+          rw [hl] at h
+          cases n with
+          | dir pm mt =>
+            simp only at h ⊢
+            rw [List.append_assoc] at h ⊢
+            exact ih _ _ _ _ hrestseg (by simpa using hgo) h
+          | file pm mt c' =>
+            simp only at h ⊢
+            split
+            · rename_i hr
+              rw [if_pos hr] at h; cases h
+              obtain ⟨r', e1, e2⟩ := hend
+              exact ⟨r', e1, by rw [e2]⟩
+            · rename_i hr; rw [if_neg hr] at h; cases h
+          | special =>
+            simp only at h ⊢
+            split
+            · rename_i hr
+              rw [if_pos hr] at h; cases h
+              obtain ⟨r', e1, e2⟩ := hend
+              exact ⟨r', e1, by rw [e2]⟩
+            · rename_i hr; rw [if_neg hr] at h; cases h
+          | link t =>
+            simp only at h ⊢
+            have hget : fs.get (W ++ c ++ [s]) = some (.link t) := by
+              rw [← lookup_ne_nil fs _ (by simp)]; exact hl
+            obtain ⟨habs, htgo⟩ := hloc c s t hget
+            split
+            · rename_i hr
+              rw [if_pos hr] at h; cases h
+              obtain ⟨r', e1, e2⟩ := hend
+              exact ⟨r', e1, by rw [e2]⟩
+            · rename_i hr
+              rw [if_neg hr] at h
+              simp only [habs, Bool.false_eq_true, if_false] at h ⊢
+              split
+              · rename_i ht; rw [if_pos ht] at h; cases h
+              · rename_i ht
+                rw [if_neg ht] at h
+                have hrest0 : rest = [] := by
+                  cases hre : rest with
+                  | nil => rfl
+                  | cons a b =>
+                    exact absurd h (hblock c s t hget fuel rest follow r (by rw [hre]; simp))
+                subst hrest0
+                refine ih _ _ _ _ ?_ (by rw [List.append_nil]; exact htgo) h
+                intro x hx
+                rw [List.append_nil] at hx
+                exact ⟨(pathSegs_mem t x hx).2.1, (pathSegs_mem t x hx).2.2⟩
+
+/-- a link that reads as a regular file (what a successful hash has checked) cannot serve as a
+directory -/
+theorem sn_link_blocks {fs : FS} (hk : KeysPhysical fs) {P : PPath} {s : Seg} {t : Str}
+    (hnames : ∀ x ∈ P ++ [s], NameNS x) (hget : fs.get (P ++ [s]) = some (.link t))
+    (habs : isAbs t = false) {p : PPath} (hres : fs.resolvePath (ofSegs (P ++ [s])) true = .ok p)
+    (hfile : ∃ pm mt c, fs.lookup p = some (.file pm mt c)) :
+    ∀ (m : Nat) (rest : List Seg) (f : Bool) (r : PPath), rest ≠ [] →
+      resolve fs m P (pathSegs t ++ rest) f ≠ .ok r := by
+  unfold FS.resolvePath at hres
+  rw [pathSegs_ofSegs _ hnames] at hres
+  have hspine : ∀ q, [] <+: q → q ≠ [] → q <+: [] ++ P → ∃ pm mt, fs.lookup q = some (.dir pm mt) := by
+    intro q _ _ hq
+    rw [List.nil_append] at hq
+    apply keys_ancestors hk _ _ hget q (List.IsPrefix.trans hq (List.prefix_append _ _))
+    intro e
+    rw [e] at hq
+    have := List.IsPrefix.length_le hq
+    simp only [List.length_append, List.length_cons, List.length_nil] at this
+    omega
+  have hPdir : ∃ pm mt, fs.lookup P = some (.dir pm mt) := by
+    apply keys_ancestors hk _ _ hget P (List.prefix_append _ _)
+    intro e
+    have := congrArg List.length e
+    simp only [List.length_append, List.length_cons, List.length_nil] at this
+    omega
+  obtain ⟨n, _, hin⟩ := sn_resolve_spine_split fs P resolveFuel [] [s] true p
+    (fun x hx => (hnames x (List.mem_append_left _ hx)).1.2.2) hspine hres
+  rw [List.nil_append] at hin
+  have hs : s ≠ dotdot := (hnames s (by simp)).1.2.2
+  cases n with
+  | zero => simp [resolve] at hin
+  | succ k =>
+    rw [resolve, if_neg hs] at hin
+    simp only at hin
+    rw [lookup_ne_nil _ _ (by simp), hget] at hin
+    simp only at hin
+    simp only [Bool.not_true, Bool.false_eq_true, and_false, if_false, habs, List.append_nil] at hin
+    by_cases ht : t = []
+    · rw [if_pos ht] at hin; cases hin
+    · rw [if_neg ht] at hin
+      intro m rest f r hrest
+      exact sn_resolve_file_blocks hk k P (pathSegs t) p hPdir hin hfile m rest f r hrest
 
 end Slug
